@@ -329,6 +329,10 @@ pub fn check_frame(run: &mut Run, c: &FrameCheck, data: &[u8], frame: &[u8]) -> 
             fail_all(run, c.rt_props, "roundtrip_libzstd_wrong_bytes", format!("{}: libzstd decodes the frame to {} bytes != input ({} bytes)", c.label, out.len(), data.len()), c.replay)
         }
         None => {
+            // a frame neither decoder can read is not well-formed either (structure = what a decoder can walk)
+            if !ok {
+                fail_all(run, c.st_props, "frame_rejected_by_both_decoders", format!("{}: neither ruzstd nor libzstd can decode the frame ({} bytes for {} input bytes)", c.label, frame.len(), data.len()), c.replay);
+            }
             ok = false;
             fail_all(run, c.rt_props, "roundtrip_libzstd_rejects", format!("{}: libzstd rejects the frame ({} bytes for {} input bytes)", c.label, frame.len(), data.len()), c.replay)
         }
@@ -394,7 +398,9 @@ pub fn check_frame(run: &mut Run, c: &FrameCheck, data: &[u8], frame: &[u8]) -> 
     // 5. size bound (C15): input + header + 3 per block + checksum
     run.oracle_checks += 1;
     let allowed_blocks = c.max_blocks.unwrap_or(data.len().div_ceil(BLOCK) + 1);
-    let bound = data.len() + 6 + 3 * allowed_blocks + 4;
+    // three bytes per block that is actually there (the optional empty final block counts when present), so that a block
+    // stored in MORE bytes than its content shows even in a one-block frame
+    let bound = data.len() + 6 + 3 * (if nblocks > 0 { nblocks.min(allowed_blocks) } else { allowed_blocks }) + 4;
     if frame.len() > bound || nblocks > allowed_blocks {
         ok = false;
         fail_all(run, c.st_props, "size_bound", format!("{}: frame of {} bytes / {} blocks for {} input bytes exceeds the raw-framing bound {} / {} blocks", c.label, frame.len(), nblocks, data.len(), bound, allowed_blocks), c.replay)
@@ -590,6 +596,27 @@ pub fn directed_inputs(rng: &mut Rng, thorough: bool) -> Vec<(String, Vec<u8>)> 
         }
         d.truncate(BLOCK - 1);
         v.push((format!("many-offset-codes {}..={} x{}", codes_lo, codes_hi, per), d));
+    }
+    // exact SEQUENCE counts around the boundaries of the count field (127/128, 255/256): `reps` copies of one 8-byte
+    // pattern separated by distinct 6-byte separators give reps-1 sequences with the built-in matcher
+    for &reps in &[127usize, 128, 129, 130, 256, 257] {
+        let pat = rng.bytes(8);
+        let mut d = vec![];
+        for k in 0..reps {
+            d.extend_from_slice(&pat);
+            let mut sep = (k as u32).to_le_bytes().to_vec();
+            sep.extend_from_slice(&[0xF0 ^ (k as u8), 0x0F ^ ((k >> 8) as u8)]);
+            d.extend_from_slice(&sep);
+        }
+        v.push((format!("exact-sequence-count reps={}", reps), d));
+    }
+    // tiny inputs with ONE short match: the compressed form is a few bytes larger or smaller than raw storage (the raw
+    // fallback decision; the frame must never exceed raw framing)
+    for &(total, m) in &[(24usize, 5usize), (30, 8), (35, 16), (40, 16), (48, 12), (64, 16), (100, 20), (22, 6)] {
+        let mut d = rng.bytes(total - m);
+        let head: Vec<u8> = d[..m].to_vec();
+        d.extend_from_slice(&head);
+        v.push((format!("tiny-one-match total={} match={}", total, m), d));
     }
     // exact literal counts at the boundaries of the literals-section size formats (1023/1024, 16383/16384): 64 equally
     // likely values, so Huffman coding pays off and (almost surely) no 5-byte match exists: all bytes are literals
